@@ -56,6 +56,10 @@ pub fn program() -> Program {
         rule("pp", vec![v("$X")], G::And(vec![call("r", vec![v("$X")]), G::Print(vec![atom("<%s>"), v("$X")]), G::Nl])),
         rule("two", vec![v("$X"), v("$Y")], G::And(vec![call("q", vec![v("$X")]), call("r", vec![v("$Y")]), G::Cmp(crate::refbuiltins::Rel::Lt, v("$X"), v("$Y"))])),
         fact("eq", vec![v("$A"), v("$A")]),
+        // a wide goal and a nested one: many variables in one query
+        fact("wide", (1..=9).map(|i| T::Int(i)).collect()),
+        rule("wide", (1..=9).map(|i| v(&format!("$W{}", i))).collect(), G::And(vec![call("q", vec![v("$W1")]), G::Unify(v("$W9"), v("$W1")), G::Unify(v("$W2"), atom("k"))])),
+        fact("nest", vec![v("$A"), v("$B"), cplx("f", vec![v("$A"), v("$B"), cplx("g", vec![v("$B"), v("$A"), atom("z")])])]),
         // sl: three quick answers, then a search far longer than the limit
         rule("sl", vec![v("$X")], call("q", vec![v("$X")])),
         rule("sl", vec![v("$X")], call("slow", vec![v("$X")])),
@@ -87,6 +91,8 @@ pub fn queries() -> Vec<(T, bool)> {
         (cplx("p", vec![atom("b")]), false),
         // a constant before a variable: the query's variables do not line up with the rule head's
         (cplx("two", vec![atom("b"), v("$W")]), false),
+        (cplx("wide", (1..=9).map(|i| v(&format!("$Q{}", i))).collect()), false),
+        (cplx("nest", vec![v("$A"), atom("b"), cplx("f", vec![v("$C"), v("$D"), cplx("g", vec![v("$E"), v("$F"), v("$G")])])]), false),
         (cplx("sl", vec![v("$Z")]), true),
     ]
 }
@@ -280,21 +286,35 @@ fn sess_text(s: &Sess) -> String {
 }
 
 pub fn sess_json(h: &[Sess]) -> Value {
+    // a long history of one repeated session is written as one entry with a repeat count
+    if h.len() > 50 && h.iter().all(|s| *s == h[0]) {
+        return json!([{"q": h[0].q, "mode": format!("{:?}", h[0].mode), "repeat": h.len()}]);
+    }
     json!(h.iter().map(|s| json!({"q": s.q, "mode": format!("{:?}", s.mode)})).collect::<Vec<_>>())
+}
+
+fn hist_text(h: &[Sess]) -> Vec<String> {
+    if h.len() > 50 && h.iter().all(|s| *s == h[0]) {
+        return vec![format!("{} x {}", sess_text(&h[0]), h.len())];
+    }
+    h.iter().map(sess_text).collect()
 }
 
 pub fn sess_from_json(v: &Value) -> Vec<Sess> {
     v.as_array()
         .map(|a| {
             a.iter()
-                .map(|x| Sess {
-                    q: x["q"].as_u64().unwrap_or(0) as usize,
-                    mode: match x["mode"].as_str().unwrap_or("") {
-                        "NextOne" => Mode::NextOne,
-                        "NextAll" => Mode::NextAll,
-                        "Solve" => Mode::Solve,
-                        _ => Mode::SolveAll,
-                    },
+                .flat_map(|x| {
+                    let s = Sess {
+                        q: x["q"].as_u64().unwrap_or(0) as usize,
+                        mode: match x["mode"].as_str().unwrap_or("") {
+                            "NextOne" => Mode::NextOne,
+                            "NextAll" => Mode::NextAll,
+                            "Solve" => Mode::Solve,
+                            _ => Mode::SolveAll,
+                        },
+                    };
+                    vec![s; x["repeat"].as_u64().unwrap_or(1) as usize]
                 })
                 .collect()
         })
@@ -318,9 +338,16 @@ fn child_body(w: &mut Worker, hist: &[Sess], prop: &str, prebuild: bool) -> Valu
     let mut states = vec![];
     let mut calls = 0u64;
     let mut starved = false;
+    let long = hist.len() > 200;
+    let mut exp_cache: std::collections::HashMap<(usize, String), (Vec<String>, String)> = std::collections::HashMap::new();
     for (i, s) in hist.iter().enumerate() {
-        let (want, want_out) = expected(s);
-        let want: Vec<String> = want.iter().map(|x| norm_ids(x)).collect();
+        let (want, want_out) = exp_cache
+            .entry((s.q, format!("{:?}", s.mode)))
+            .or_insert_with(|| {
+                let (w0, o0) = expected(s);
+                (w0.iter().map(|x| norm_ids(x)).collect(), o0)
+            })
+            .clone();
         let t_start = std::time::Instant::now();
         let pb = pre[i].take();
         let r = std::panic::catch_unwind(std::panic::AssertUnwindSafe(|| run_session(w, &kb, s, &mut kept, pb)));
@@ -334,7 +361,17 @@ fn child_body(w: &mut Worker, hist: &[Sess], prop: &str, prebuild: bool) -> Valu
         };
         calls += got.len() as u64;
         let stopped = suiron::query_stopped();
-        states.push(format!("{}|{}", stopped, suiron::get_var_id()));
+        let st = format!("{}|{}", stopped, suiron::get_var_id());
+        if !long || states.last() != Some(&st) {
+            states.push(st);
+        }
+        if long {
+            // a long history: release the finished session's nodes (an abandoned node kept alive is
+            // covered by the short histories)
+            if let Some(n) = kept.nodes.pop() {
+                dismantle(&n);
+            }
+        }
         if got != want && !is_slow(s) && took.as_millis() > 400 && got.iter().any(|x| x.starts_with("Query timed out")) {
             // the machine is so loaded that a microsecond search was off the CPU for most of a
             // second: the limit really was exceeded in wall time.  Not a verdict: the parent re-runs
@@ -348,8 +385,11 @@ fn child_body(w: &mut Worker, hist: &[Sess], prop: &str, prebuild: bool) -> Valu
             let (p, kind) = if hist.len() == 1 || i == 0 { ("C23", "alone") } else { ("C22", "after-history") };
             let timed = got.iter().any(|x| x.starts_with("Query timed out")) && !want.iter().any(|x| x.starts_with("Query timed out"));
             let class = format!("{}{}:{}:{:?}{}", kind, if prebuild { "-prebuilt" } else { "" }, queries()[s.q].0.text().split('(').next().unwrap_or(""), s.mode, if timed { ":spurious-timeout" } else { "" });
-            let before: Vec<String> = hist[..i].iter().map(sess_text).collect();
+            let before: Vec<String> = hist_text(&hist[..i]);
             viols.push(json!({"prop": p, "class": class, "msg": format!("session {} ({}) after {:?}: observed {:?} / output {:?}; on its own the query gives {:?} / output {:?}", i + 1, sess_text(s), before, got, out, want, want_out)}));
+            if long {
+                break;
+            }
         }
     }
     for n in &kept.nodes {
@@ -435,24 +475,32 @@ pub fn histories(prop: &str, tier: &str, f: &mut dyn FnMut(Vec<Sess>)) {
     if prop == "C23" {
         return;
     }
+    // the sub-alphabet: one session of every query and of every mode
+    let small: Vec<Sess> = {
+        let pick = [(0, Mode::NextOne), (0, Mode::NextAll), (0, Mode::SolveAll), (1, Mode::Solve), (2, Mode::NextAll), (3, Mode::SolveAll), (4, Mode::NextOne), (5, Mode::Solve), (6, Mode::NextAll), (6, Mode::SolveAll), (7, Mode::Solve), (8, Mode::NextAll), (9, Mode::SolveAll)];
+        pick.iter().map(|(q, m)| Sess { q: *q, mode: *m }).collect()
+    };
+    // length 2.  thorough: all pairs.  quick: all pairs in which at least one session is of the
+    // sub-alphabet; a timed-out session (a second of real time each) only next to the sub-alphabet
     for a in &al {
         for b in &al {
-            if is_slow(a) && is_slow(b) && !thorough {
-                continue;
+            if !thorough {
+                let (sa, sb) = (small.contains(a), small.contains(b));
+                if (is_slow(a) && is_slow(b)) || (is_slow(a) && !sb) || (is_slow(b) && !sa) || (!sa && !sb && !is_slow(a) && !is_slow(b)) {
+                    continue;
+                }
             }
             f(vec![*a, *b]);
         }
     }
-    // length 3.  quick: a sub-alphabet with one session of every query and of every mode, plus
-    // the timed-out solve_all in first position; thorough: everything with at most one slow session
-    let small: Vec<Sess> = {
-        let pick = [(0, Mode::NextOne), (0, Mode::NextAll), (0, Mode::SolveAll), (1, Mode::Solve), (2, Mode::NextAll), (3, Mode::SolveAll), (4, Mode::NextOne), (5, Mode::Solve), (6, Mode::NextAll), (6, Mode::SolveAll), (7, Mode::Solve)];
-        pick.iter().map(|(q, m)| Sess { q: *q, mode: *m }).collect()
-    };
+    // length 3.  quick: the sub-alphabet, plus the timed-out solve_all in first position;
+    // thorough: everything with at most one slow session
     let sub: Vec<Sess> = if thorough {
         al.clone()
     } else {
-        let mut v = small.clone();
+        // (length 3 costs sub^3 processes: every other session of the sub-alphabet, still one of every mode)
+        let mut v: Vec<Sess> = small.iter().step_by(2).cloned().collect();
+        v.push(small[3]);
         v.push(Sess { q: queries().len() - 1, mode: Mode::SolveAll });
         v
     };
@@ -470,6 +518,19 @@ pub fn histories(prop: &str, tier: &str, f: &mut dyn FnMut(Vec<Sess>)) {
                 }
                 f(vec![*a, *b, *c]);
             }
+        }
+    }
+    // long histories: one fast session repeated n times in one process (every repetition is judged);
+    // n crosses the sizes at which a counter of the global state typically wraps
+    let reps: Vec<usize> = if thorough { vec![10, 100, 1000, 33_000, 70_000, 140_000] } else { vec![10, 100, 1000, 70_000] };
+    for (si, s) in [Sess { q: 0, mode: Mode::NextOne }, Sess { q: 0, mode: Mode::SolveAll }, Sess { q: 6, mode: Mode::NextAll }, Sess { q: 4, mode: Mode::Solve }].iter().enumerate() {
+        for &n in &reps {
+            // solve / solve_all start a timer thread per call: keep those histories shorter
+            let n = if matches!(s.mode, Mode::Solve | Mode::SolveAll) { n.min(if thorough { 70_000 } else { 24_000 }) } else { n };
+            if si > 1 && n > 1000 && !thorough {
+                continue;
+            }
+            f(vec![*s; n]);
         }
     }
     if thorough {
@@ -511,7 +572,7 @@ pub fn worker(prop: &str, tier: &str) {
             return;
         }
         if w.describe.is_some() {
-            w.emit(json!({"t":"describe","class":"history","witness":{"engine":"sessions","history":sess_json(&h),"text":h.iter().map(sess_text).collect::<Vec<_>>()}}));
+            w.emit(json!({"t":"describe","class":"history","witness":{"engine":"sessions","history":sess_json(&h),"text":hist_text(&h)}}));
             return;
         }
         w.begin(my);
@@ -521,7 +582,7 @@ pub fn worker(prop: &str, tier: &str) {
         for prebuild in [false, true] {
         // quick: the up-front variant of a history with a timed-out session only when that session comes
         // first (it is the later sessions that a stale flag or timer can hurt)
-        if prebuild && (h.len() < 2 || (slow > 0 && tier != "thorough" && (h.len() > 2 || !is_slow(&h[0])))) {
+        if prebuild && (h.len() < 2 || h.len() > 8 || (slow > 0 && tier != "thorough" && (h.len() > 2 || !is_slow(&h[0])))) {
             continue;
         }
         let mut result = run_history_forked(w, &h, prop, 300 + 5 * slow, prebuild);
@@ -563,19 +624,19 @@ pub fn worker(prop: &str, tier: &str) {
                         w.count(&format!("viol.{}", p), 1);
                         let n = emitted.entry(format!("{}{}", p, class)).or_insert(0);
                         *n += 1;
-                        let wit = if *n <= 2 { json!({"engine":"sessions","history":sess_json(&h),"prebuilt":prebuild,"text":h.iter().map(sess_text).collect::<Vec<_>>()}) } else { Value::Null };
+                        let wit = if *n <= 2 { json!({"engine":"sessions","history":sess_json(&h),"prebuilt":prebuild,"text":hist_text(&h)}) } else { Value::Null };
                         w.emit(json!({"t":"viol","prop":p,"class":class,"kind":class.split(':').next().unwrap_or(""),"msg":v["msg"],"witness":wit}));
                     }
                 }
                 if n_samples < 2 && h.len() >= 2 {
                     n_samples += 1;
-                    w.emit(json!({"t":"sample","v":{"history":h.iter().map(sess_text).collect::<Vec<_>>(),"global_state_after_each_session (stopped|var id)":rep["states"]}}));
+                    w.emit(json!({"t":"sample","v":{"history":hist_text(&h),"global_state_after_each_session (stopped|var id)":rep["states"]}}));
                 }
             }
             Err(e) => {
                 let kind = if e.starts_with("HANG") { "hang" } else { "crash" };
                 w.count(&format!("viol.{}", prop), 1);
-                w.emit(json!({"t":"viol","prop":prop,"class":format!("{}:history", kind),"kind":kind,"msg":format!("{} — history {:?}", e, h.iter().map(sess_text).collect::<Vec<_>>()),"witness":{"engine":"sessions","history":sess_json(&h),"prebuilt":prebuild}}));
+                w.emit(json!({"t":"viol","prop":prop,"class":format!("{}:history", kind),"kind":kind,"msg":format!("{} — history {:?}", e, hist_text(&h)),"witness":{"engine":"sessions","history":sess_json(&h),"prebuilt":prebuild}}));
             }
         }
         }
@@ -640,7 +701,7 @@ fn conformance(w: &mut Worker) {
 
 pub fn replay(wit: &Value) -> bool {
     let h = sess_from_json(&wit["history"]);
-    println!("history: {:?}", h.iter().map(sess_text).collect::<Vec<_>>());
+    println!("history: {:?}", hist_text(&h));
     let mut w = Worker::from_env();
     let mut reports = vec![];
     for round in 0..2 {
